@@ -31,6 +31,7 @@ class Facts:
         self.mods = d['mods']
         self.uses = d['uses']
         self.consts = d['consts']
+        self.items = d['items']
         self.fn_by_path = {}
         for f in d['fns']:
             self.fn_by_path.setdefault(f['path'], f)
